@@ -212,6 +212,75 @@ func schedScenario(name, pre string, stale bool, thr []thrSpec, p, t int) vx.Sce
 	return vx.Scenario{Name: name, Body: body, Check: check, P: p, T: t, SetBound: true}
 }
 
+// registryScenario: n threads make the FIRST calls on a named breaker through the package-level
+// entry points at the same time. All of them must be recorded in the one breaker registered under
+// that name (exact accounting does not stop at the registry), and every lookup must give that breaker.
+func registryScenario(name string, p int, outs ...int) vx.Scenario {
+	body := func() {
+		breaker.VerifResetRegistry()
+		var wg vsched.WaitGroup
+		for i, out := range outs {
+			i, out := i, out
+			wg.Add(1)
+			vsched.GoNamed(fmt.Sprintf("c%d", i), false, func() {
+				defer wg.Done()
+				vsched.Log("B %d", i)
+				var err error
+				func() {
+					defer func() { recover() }()
+					err = breaker.DoWithAcceptable("named", func() error {
+						vsched.Op("in-req")
+						switch out {
+						case oBad:
+							return errBad
+						case oPanic:
+							panic(panicVal)
+						}
+						return nil
+					}, func(err error) bool { return err == nil })
+				}()
+				vsched.Log("E %d %v", i, err == breaker.ErrServiceUnavailable)
+			})
+		}
+		wg.Wait()
+		b := breaker.GetBreaker("named")
+		_, s, f, d := breaker.VerifTotals(b)
+		vsched.Log("W %d %d %d %v", s, f, d, b == breaker.GetBreaker("named"))
+	}
+	check := func(e *vsched.Exec) vx.Verdict {
+		if g := vx.Guard(e); g != nil {
+			return *g
+		}
+		var ws, wf int64
+		for _, out := range outs {
+			if out == oOK {
+				ws++
+			} else {
+				wf++
+			}
+		}
+		for _, l := range e.Log() {
+			if strings.HasPrefix(l, "E ") && strings.HasSuffix(l, " true") {
+				return vx.Verdict{Class: "rejected-below-threshold", Msg: "a first call on a fresh named breaker was rejected: " + l}
+			}
+			if strings.HasPrefix(l, "W ") {
+				var s, f, d int64
+				var same bool
+				fmt.Sscanf(l[2:], "%d %d %d %v", &s, &f, &d, &same)
+				if !same {
+					return vx.Verdict{Class: "registry-unstable-instance", Msg: "two lookups of one name gave different breakers"}
+				}
+				if s != ws || f != wf || d != 0 {
+					return vx.Verdict{Class: "concurrent-lost-record:named-breaker-first-use", Msg: fmt.Sprintf("%d concurrent first calls on a named breaker (outcomes %v): the registered breaker recorded S%d F%d D%d, want S%d F%d D0 — calls were accounted in a breaker nobody can reach", len(outs), outs, s, f, d, ws, wf)}
+				}
+				return vx.Verdict{Sig: "all-recorded"}
+			}
+		}
+		return vx.Verdict{Class: "harness-log", Msg: "window totals missing from the log"}
+	}
+	return vx.Scenario{Name: name, Body: body, Check: check, P: p, T: 0, SetBound: true}
+}
+
 func runSchedules(cfg *vlib.Config, r *vlib.Report) {
 	P := 2
 	if cfg.Thorough() {
@@ -242,6 +311,7 @@ func runSchedules(cfg *vlib.Config, r *vlib.Report) {
 		thrSpec{E: en(bDoAcc, cxNone), Out: oAccErr}, thrSpec{E: en(bAllow, cxNone), Out: oBad})
 	add("threshold-boundary-2", "threshold", false, P, 1,
 		thrSpec{E: en(bDo, cxNone), Out: oBad}, thrSpec{E: en(bDoFb, cxNone), Out: oBad, Sleep: 250 * time.Millisecond})
+	sc = append(sc, registryScenario("named-first-use-2", P+1, oBad, oOK), registryScenario("named-first-use-3", P, oBad, oBad, oPanic))
 	if cfg.Thorough() {
 		add("stale-3", "throttling", true, P, 0,
 			thrSpec{E: en(bDo, cxNone), Out: oBad}, thrSpec{E: en(bDoFb, cxNone), Out: oOK}, thrSpec{E: en(bAllow, cxNone), Out: oBad})
